@@ -30,14 +30,14 @@ pub open spec fn spec_unpack(bytes: Seq<u8>) -> Option<(Seq<u8>, Seq<char>)> {
 }
 
 // ---- lemmas: decimal rendering ----
-pub proof fn lemma_dec_digits(n: nat)
+pub proof fn lemma_dec_digits(n: nat)   // [C20]
     ensures dec(n).len() >= 1,
             forall|i: int| 0 <= i < dec(n).len() ==> '0' <= #[trigger] dec(n)[i] <= '9',
     decreases n
 {
     if n >= 10 { lemma_dec_digits(n / 10); }
 }
-pub proof fn lemma_dec_ascii_nosp(n: nat)
+pub proof fn lemma_dec_ascii_nosp(n: nat)   // [C20]
     ensures vstd::utf8::is_ascii_chars(dec(n)),
             vstd::utf8::encode_utf8(dec(n)).len() == dec(n).len(),
             forall|i: int| 0 <= i < dec(n).len() ==> #[trigger] vstd::utf8::encode_utf8(dec(n))[i] != 0x20u8,
@@ -62,7 +62,7 @@ pub proof fn lemma_first_idx_skip<T>(a: Seq<T>, b: Seq<T>, p: spec_fn(T) -> bool
     }
 }
 // consuming `dec(n) ' ' rest` yields (n, rest)
-pub proof fn lemma_consume_dec(n: nat, rest: Seq<u8>)
+pub proof fn lemma_consume_dec(n: nat, rest: Seq<u8>)   // [C20]
     requires n <= usize::MAX
     ensures spec_consume(vstd::utf8::encode_utf8(dec(n)) + seq![0x20u8] + rest) == Some((n as usize, rest))
 {
@@ -84,7 +84,7 @@ pub proof fn lemma_consume_dec(n: nat, rest: Seq<u8>)
 }
 
 // ---- C20: unpack after pack returns the original pair; pack is injective ----
-pub proof fn lemma_pae_roundtrip(t: Seq<char>, p: Seq<u8>)
+pub proof fn lemma_pae_roundtrip(t: Seq<char>, p: Seq<u8>)   // [C20]
     requires p.len() <= usize::MAX
     ensures spec_unpack(spec_pae(t, p)) == Some((p, t))
 {
@@ -126,7 +126,7 @@ pub proof fn lemma_pae_roundtrip(t: Seq<char>, p: Seq<u8>)
     lemma_consume_dec(p.len(), p);
     assert(p.subrange(0, p.len() as int) =~= p);
 }
-pub proof fn lemma_pae_injective(t1: Seq<char>, p1: Seq<u8>, t2: Seq<char>, p2: Seq<u8>)
+pub proof fn lemma_pae_injective(t1: Seq<char>, p1: Seq<u8>, t2: Seq<char>, p2: Seq<u8>)   // [C20]
     requires p1.len() <= usize::MAX, p2.len() <= usize::MAX, spec_pae(t1, p1) == spec_pae(t2, p2)
     ensures t1 == t2, p1 == p2
 {
